@@ -271,6 +271,8 @@ RECIPES = {
     },
     'parso/python/pep8.py': {
         'PEP8Normalizer.visit_leaf': [r_for_over(r'leaf\._split_prefix\(\)', ['part'])],
+        'BracketNode.__init__': [r_assigned_from(r'parent|\w+\.parent', 'n'),
+                                 r_assigned_from(r'n\.indentation', 'parent_indentation')],
     },
 }
 
